@@ -50,6 +50,11 @@ def run_c04(ctx):
     ctx.validate(tf, {c["id"]: c for c in cases}, driver="plan")
     ctx.extra["tlc_generated_plans_replayed"] = len(cases)
     rc = random_hist(ctx, 120 if quick else 2500, 14)
+    # plan after plan through one exporter object, for two problems of the domain with different objects
+    pc = random_hist(ctx, 100 if quick else 2000, 10, base=50000)
+    for c in pc:
+        c["weights"] = "plans"
+    rc += pc
     tf2 = ctx.drive("hist", rc, hashseeds=(0, 1, 2) if quick else tuple(range(16)))
     ctx.validate(tf2, {c["id"]: c for c in rc}, driver="hist")
     _stats(tf, ctx, {"RunPlan", "ExportTrajectory", "Apply"})
